@@ -44,6 +44,7 @@ type layoutCtx struct {
 	P     *Prog
 	depth int
 	seen  map[ssa.Value]bool
+	use   *ssa.BasicBlock // where the assembled buffer is emitted: phi operands that cannot reach it are not alternatives
 }
 
 // fieldPath renders FieldAddr chains rooted at a receiver/parameter as "A.B".
@@ -377,6 +378,11 @@ func (L *layoutCtx) segs(v ssa.Value) [][]Seg {
 		defer delete(L.seen, x)
 		var out [][]Seg
 		for i, e := range x.Edges {
+			// an operand that arrives only on paths which never emit the buffer (an error recorded and returned
+			// afterwards) is not a layout of the record
+			if L.use != nil && x.Parent() == L.use.Parent() && L.depth == 0 && !reachesViaEdge(x.Block().Preds[i], x.Block(), L.use) {
+				continue
+			}
 			cond := L.edgeCond(x, i)
 			var alts [][]Seg
 			if isNilConst(e) {
@@ -841,6 +847,9 @@ func checkLayoutsFiltered(R *Run, only func(typ string) bool) {
 			continue
 		}
 		L := &layoutCtx{P: P, seen: map[ssa.Value]bool{}}
+		if bi, ok := stripSlice(buf).(ssa.Instruction); ok && bi.Parent() == fn {
+			L.use = bi.Block()
+		}
 		alts := L.segs(buf)
 		extracted[o.Type] = alts
 		pos := P.pos(fn.Pos())
@@ -1091,6 +1100,31 @@ func (R *Run) checkPrefixes(extracted map[string][][]Seg, all map[string]specObj
 					if f2, ok := st.Addr.(*ssa.FieldAddr); ok {
 						if df, _ := fieldOf(f2); df == dataField {
 							dataSyms = append(dataSyms, P.lengthOrigin(st.Val))
+						}
+					}
+					// the whole record stored at once from a repo constructor: the data is what the constructor
+					// puts into the field, expressed by the argument it was given
+					if c := callValue(st.Val); c != nil {
+						if h, ok := c.Call.Value.(*ssa.Function); ok && h.Blocks != nil && P.isRepoPkg(pkgOf(h)) {
+							eachInstr(h, func(i3 ssa.Instruction) {
+								st3, ok := i3.(*ssa.Store)
+								if !ok {
+									return
+								}
+								f3, ok := st3.Addr.(*ssa.FieldAddr)
+								if !ok {
+									return
+								}
+								if df, _ := fieldOf(f3); df != dataField {
+									return
+								}
+								src := stripConv(st3.Val)
+								for k, prm := range h.Params {
+									if src == ssa.Value(prm) && k < len(c.Call.Args) {
+										dataSyms = append(dataSyms, P.lengthOrigin(c.Call.Args[k]))
+									}
+								}
+							})
 						}
 					}
 				}
